@@ -93,7 +93,7 @@ def build_pattern_with_terms(case, charges=None, groups=None):
                      charges=charges if charges is not None else [], groups=groups if groups is not None else [],
                      bonds=pt["bonds"], bond_types=[0] * len(pt["bonds"]),
                      angles=pt["angles"], angle_types=[0] * len(pt["angles"]),
-                     dihedrals=pt["dihedrals"], dihedral_types=[0] * len(pt["dihedrals"]))
+                     dihedrals=pt["dihedrals"], dihedral_types=[0] * len(pt["dihedrals"]), cell=repl.pattern_cell(case, 0))
 
 
 def match_atoms(cell, old, new, tol):
@@ -202,8 +202,8 @@ def subst_oracle(case, stats):
         # reversible, so keep the case
         pass
     s = repl.build_structure(case)
-    A = mf.atoms_from(case["ppos"], case["pels"])
-    B = mf.atoms_from(case["ppos"], case["bels"])
+    A = mf.atoms_from(case["ppos"], case["pels"], repl.pattern_cell(case, 0))
+    B = mf.atoms_from(case["ppos"], case["bels"], repl.pattern_cell(case, 1))
     kw = dict(replace_all=case["replace_all"])
     try:
         f1 = case.get("f1", 1.0)
